@@ -1,3 +1,6 @@
 pub mod engine;
+pub mod gen;
 pub mod props;
 pub mod refmodel;
+pub mod searchrun;
+pub mod simodel;
